@@ -139,7 +139,7 @@ func parseHeaders(decodeFn qpack.DecodeFunc, isRequest bool, sizeLimit int, head
 		}
 	}
 	hdr.ContentLength = -1
-	if len(contentLengthStr) > 0 {
+	if readContentLength {
 		// use ParseUint instead of ParseInt, so that parsing fails on negative values
 		cl, err := strconv.ParseUint(contentLengthStr, 10, 63)
 		if err != nil {
